@@ -125,7 +125,9 @@ Theorem lst_set_parent_inv s ts p :
   WF s -> (forall t, In t ts -> pub s t) -> (forall p', p = Some p' -> p' < length (hp s)) ->
   WF (fst (lst_set_parent s ts p)) /\ same_shape s (fst (lst_set_parent s ts p)).
 Proof.
-  intros W Pt Hp. unfold lst_set_parent.
+  intros W Pt Hp. unfold lst_set_parent, all_or_nothing.
+  destruct (snd (lst_set_parent_seq s ts p)) as [[]| |c]; cbn [fst];
+    [|split; [exact W|apply same_shape_refl]..]. unfold lst_set_parent_seq.
   apply (seq_calls_inv (fun s' => WF s' /\ same_shape s s') (fun s' t => set_parent s' t p));
     [|split; [exact W|apply same_shape_refl]].
   intros s' t Hin [W' Sh].
